@@ -63,6 +63,16 @@ pub(crate) fn verify_membership<TC: Configuration>(
         curr_label = sibling_proof.label;
     }
 
+    // The chain of parents must end at the root node. The label reached at the top is not
+    // bound by any hash, so without this check a proof with no sibling proofs whose value is
+    // the root's value would verify for an arbitrary label
+    if curr_label != NodeLabel::root() {
+        return Err(VerificationError::MembershipProof(format!(
+            "Membership proof for label {:?} does not end at the root node",
+            proof.label
+        )));
+    }
+
     if TC::compute_root_hash_from_val(&curr_val) == root_hash {
         Ok(())
     } else {
